@@ -277,3 +277,9 @@ def c20(prop, tier, t0):
         "iteration order of the grouping map only affects the order of the returned slice, which the canonical form sorts away; Go randomises it per call, it is not enumerated",
         "more than 4 handlers per discovery batch are not enumerated",
     ], t0)
+
+
+@check("C18")
+def c18(prop, tier, t0):
+    import c18 as _c18
+    return _c18.run(prop, tier, t0)
